@@ -701,6 +701,13 @@ func (m *Machine) drawTD(t *rapid.T) uint32 {
 }
 
 func (m *Machine) drawNTx(t *rapid.T) int {
+	if m.Cfg.Reverts {
+		// in POW consensus mode the node refuses plain TransferAsset transactions
+		// (TransferAssetTransaction.IsAllowedInPOWConsensus), so whether a block
+		// carrying one is valid would depend on the mode of its branch: histories
+		// with mode switches use coinbase-only blocks (plus the switch transactions)
+		return 0
+	}
 	return rapid.SampledFrom([]int{0, 0, 0, 1, 1, 2}).Draw(t, "ntx")
 }
 
